@@ -3,6 +3,7 @@ package pomsg
 import (
 	"bytes"
 	"fmt"
+	"regexp"
 
 	"github.com/robfig/soy/ast"
 )
@@ -22,7 +23,33 @@ func Validate(n *ast.MsgNode) error {
 			if len(n.Cases) != 1 || n.Cases[0].Value != 1 {
 				return fmt.Errorf("PO requires two plural cases [1, default]. found %v", n.Cases)
 			}
+			if err := validateText(n.Cases[0].Body); err != nil {
+				return err
+			}
+			if err := validateText(n.Default); err != nil {
+				return err
+			}
 		}
+	}
+	return validateText(n.Body)
+}
+
+var placeholderLike = regexp.MustCompile(`{[A-Z0-9_]+}`)
+
+// validateText checks that the literal text of a message body does not contain
+// anything that reads as a placeholder in the msgid: "{FOO}" written with
+// {lb}FOO{rb} could not be told apart from the placeholder FOO.
+func validateText(body ast.ParentNode) error {
+	var text bytes.Buffer
+	for _, child := range body.Children() {
+		if raw, ok := child.(*ast.RawTextNode); ok {
+			text.Write(raw.Text)
+		} else {
+			text.WriteByte(0) // a placeholder: not part of any text run
+		}
+	}
+	if m := placeholderLike.Find(text.Bytes()); m != nil {
+		return fmt.Errorf("message text %q is not representable in a PO file: it reads as a placeholder", m)
 	}
 	return nil
 }
